@@ -3,6 +3,7 @@ package main
 import (
 	"go/ast"
 	"go/token"
+	"sort"
 	"strconv"
 )
 
@@ -32,6 +33,68 @@ func extractAll(root string, o *out) {
 	renv := rdb.topLevel()
 	o.nat("rdb_DefaultBatchSize", need(renv, "rdb", "DefaultBatchSize"))
 	o.nat("rdb_NumberOfIterators", need(renv, "rdb", "NumberOfIterators"))
+
+	// source-order trace of lock operations and accesses to `samples` in the bodies of the sliding
+	// window's cleaner, Add and Samples ("Lock" "Unlock" "RLock" "RUnlock" "deferUnlock" "R" "W"):
+	// the sequential window model is the code only if each body is one critical section
+	o.sb.WriteString("\n/-! metrics/swindow.go -/\n")
+	metrics := load(root, "metrics")
+	for _, fn := range []string{"cleaner", "Add", "Samples"} {
+		o.strs("swindow_"+fn+"_trace", lockTrace(metrics, "slidingWindow."+fn, "mutex", "samples"))
+	}
+}
+
+// lockTrace lists, in source order, the calls <x>.<mutex>.{Lock,Unlock,RLock,RUnlock} (a deferred
+// call is prefixed "defer") and the reads ("R") / writes ("W") of <x>.<field> in function fn.
+func lockTrace(p *pkgInfo, fn, mutex, field string) []string {
+	fd := p.funcDecl(fn)
+	type ev struct {
+		pos token.Pos
+		s   string
+	}
+	var evs []ev
+	writes := map[*ast.SelectorExpr]token.Pos{}
+	deferred := map[*ast.CallExpr]bool{}
+	ast.Inspect(fd.Body, func(nd ast.Node) bool {
+		switch x := nd.(type) {
+		case *ast.AssignStmt:
+			for _, l := range x.Lhs {
+				if se, ok := l.(*ast.SelectorExpr); ok && se.Sel.Name == field {
+					writes[se] = x.End() // a write takes effect after its right-hand side
+				}
+			}
+		case *ast.DeferStmt:
+			deferred[x.Call] = true
+		case *ast.CallExpr:
+			if se, ok := x.Fun.(*ast.SelectorExpr); ok {
+				if in, ok := se.X.(*ast.SelectorExpr); ok && in.Sel.Name == mutex {
+					name := se.Sel.Name
+					if deferred[x] {
+						name = "defer" + name
+					}
+					evs = append(evs, ev{x.Pos(), name})
+				}
+			}
+		case *ast.SelectorExpr:
+			if x.Sel.Name == field {
+				if end, ok := writes[x]; ok {
+					evs = append(evs, ev{end, "W"})
+				} else {
+					evs = append(evs, ev{x.Pos(), "R"})
+				}
+			}
+		}
+		return true
+	})
+	sort.SliceStable(evs, func(i, j int) bool { return evs[i].pos < evs[j].pos })
+	var out []string
+	for _, e := range evs {
+		out = append(out, e.s)
+	}
+	if len(out) == 0 {
+		fail("%s: no lock/field events found in %s", p.dir, fn)
+	}
+	return out
 }
 
 // sprintfFormatAssignedTo finds `<name> = fmt.Sprintf("<literal>", ...)` in function fn.
